@@ -163,6 +163,47 @@ theorem c14_reentrant_hold_released (s : Sys) (c : Ctx) (r : Nat) (hr : r ∈ c.
     ¬ Owns (releaseFully s c r).1 c.id r :=
   (releaseFully_spec s c r).freed hr
 
+/-! ### One layer up: `IntegratedCell.execute` -/
+
+/-- **The cell reports success only if the coordinated operation did** — and hence only if the work function
+    returned and validation was absent or returned true — for every system state, request list, adversary (whatever
+    exceptions, with or without message, the callbacks raise: the model of the code does not look at the error
+    text) and every behaviour of the quality / surveillance post-processing (tag, no tag, raising).  Moreover an
+    output is released only with success, a failure is attributed to coordination exactly when the coordinated
+    operation failed, and a failing post-processing step yields a failure too. -/
+theorem c14_cell_success_only_if_both (s : Sys) (op : Nat) (prio : Int) (req : List Nat) (adv : Adv) (post : PostOut) :
+    let c := cellExecute s op prio req adv post
+    (c.success = true → (exec s op prio req adv).success = true ∧ adv.workOk = true ∧
+        (adv.val = .absent ∨ adv.val = .yes) ∧ post ≠ .raise) ∧
+    (c.hasOutput = true → c.success = true) ∧
+    (c.blockedByCoordination = true ↔ (exec s op prio req adv).success = false) ∧
+    c.tracked = false := by
+  simp only [cellExecute]
+  cases hs : (exec s op prio req adv).success with
+  | false => simp
+  | true =>
+    have hb := c14_success_only_if_both s op prio req adv hs
+    cases post <;> simp [hb.1, hb.2.1]
+
+/-- **No leak through the cell either**: the cell leaves the coordination system exactly as `execute_operation`
+    left it, so `c14_no_leak_on_any_exit` applies to every way `IntegratedCell.execute` can end, including a
+    post-processing step that raises after the operation committed. -/
+theorem c14_cell_no_leak_on_any_exit (s : Sys) (op : Nat) (prio : Int) (req : List Nat) (adv : Adv) (post : PostOut)
+    (hown : ∀ r, ¬ Owns s op r) :
+    let s' := (cellExecute s op prio req adv post).sys
+    s' = (exec s op prio req adv).sys ∧
+    (∀ r, ¬ Owns s' op r) ∧ (∀ c ∈ s'.active, c.id ≠ op) ∧
+    (∀ r l, s'.locks r = some l → ∀ e ∈ l.waiting, e.1 ≠ op) ∧
+    (∀ w b r, HasEdge s'.edges w b r → w ≠ op ∧ b ≠ op) := by
+  have hsys : (cellExecute s op prio req adv post).sys = (exec s op prio req adv).sys := by
+    simp only [cellExecute]
+    split
+    · cases post <;> rfl
+    · rfl
+  simp only
+  rw [hsys]
+  exact ⟨rfl, c14_no_leak_on_any_exit s op prio req adv hown⟩
+
 /-! ### Non-vacuity: concrete systems meeting the hypotheses -/
 
 private def s0 : Sys := (({} : Sys).register 1 false).register 2 true
@@ -191,5 +232,14 @@ example : (exec s1 1 3 [2] advOk).success = true ∧
 example : (exec s0 1 3 [1, 2, 1] { advOk with act := .kill 1, workOk := false }).success = false ∧
     ((exec s0 1 3 [1, 2, 1] { advOk with act := .kill 1, workOk := false }).sys.locks 1).map (·.owner) = some none ∧
     (exec s0 1 3 [1, 2, 1] { advOk with act := .kill 1, workOk := false }).sys.active = [] := by decide
+
+/-- the cell layer: success with and without a tag, failure attributed to coordination when validation raises,
+    failure without a blocker when the post-processing raises after a commit -/
+example : (cellExecute s0 1 3 [1] advOk .ok).success = true ∧ (cellExecute s0 1 3 [1] advOk .noTag).success = true ∧
+    (cellExecute s0 1 3 [1] { advOk with val := .raise } .ok).success = false ∧
+    (cellExecute s0 1 3 [1] { advOk with val := .raise } .ok).blockedByCoordination = true ∧
+    (cellExecute s0 1 3 [1] advOk .raise).success = false ∧
+    (cellExecute s0 1 3 [1] advOk .raise).blockedByCoordination = false ∧
+    (cellExecute s0 1 3 [1] advOk .raise).coord.success = true := by decide
 
 end Operon.Coord
